@@ -348,3 +348,91 @@ Proof.
              destruct (a_net l) eqn:?; [apply N.eqb_eq in H; subst|discriminate]
          end; auto.
 Qed.
+
+(* =================================================================== the internetwork *)
+Lemma run_core : forall k w,
+  (nodes (run k w), queue (run k w)) = erun (lans w) k (nodes w, queue w) /\ lans (run k w) = lans w.
+Proof.
+  induction k as [|k IH]; intro w; cbn [run erun]; [split; reflexivity|].
+  unfold step. cbn [fst snd]. destruct (step_core (lans w) (nodes w) (queue w)) as [[[ns q'] os]|] eqn:E.
+  - specialize (IH (mkWorld ns (lans w) q' (os ++ trace w))). cbn in IH. exact IH.
+  - split; reflexivity.
+Qed.
+
+Lemma erun_stuck : forall lns k c, step_core lns (fst c) (snd c) = None -> erun lns k c = c.
+Proof. intros lns [|k] c H; cbn [erun]; [reflexivity|rewrite H; reflexivity]. Qed.
+
+Lemma erun_add : forall lns a b c, erun lns (a + b) c = erun lns b (erun lns a c).
+Proof.
+  induction a as [|a IH]; intros b c; cbn [erun Nat.add]; [reflexivity|].
+  destruct (step_core lns (fst c) (snd c)) as [[[ns q'] os]|] eqn:E.
+  - apply IH.
+  - symmetry. apply erun_stuck. assumption.
+Qed.
+
+Lemma erun_period : forall lns m c, erun lns m c = c -> forall k, erun lns (k * m) c = c.
+Proof.
+  intros lns m c H. induction k as [|k IH]; [reflexivity|].
+  cbn [Nat.mul]. rewrite erun_add, H. exact IH.
+Qed.
+
+(* a state that recurs after m > 0 steps with a non-empty queue all along never quiesces *)
+Lemma lasso_never_quiet : forall lns m c,
+  (0 < m)%nat -> erun lns m c = c ->
+  (forall b, (b < m)%nat -> snd (erun lns b c) <> []) ->
+  forall k, snd (erun lns k c) <> [].
+Proof.
+  intros lns m c Hm Hp Hq k.
+  rewrite (Nat.div_mod k m) by lia. rewrite (Nat.mul_comm m (k / m)).
+  rewrite erun_add, erun_period by assumption.
+  apply Hq. apply Nat.mod_upper_bound. lia.
+Qed.
+
+Lemma forall_lt_forallb : forall (P : nat -> bool) m,
+  forallb P (seq 0 m) = true -> forall b, (b < m)%nat -> P b = true.
+Proof.
+  intros P m H b Hb. rewrite forallb_forall in H. apply H. apply in_seq. lia.
+Qed.
+
+(* three routers in a ring (networks 1,2,3; one station each); station 3 = the one on network 1 *)
+Definition ring3 : world :=
+  mkWorld
+    [mkW (mkNode [mkAd (Some 1) (Some [101]); mkAd (Some 2) (Some [101])] false [] []) [(1, [101]); (2, [101])];
+     mkW (mkNode [mkAd (Some 2) (Some [102]); mkAd (Some 3) (Some [102])] false [] []) [(2, [102]); (3, [102])];
+     mkW (mkNode [mkAd (Some 3) (Some [103]); mkAd (Some 1) (Some [103])] false [] []) [(3, [103]); (1, [103])];
+     mkW (mkNode [mkAd (Some 1) (Some [1])] true [] []) [(1, [1])];
+     mkW (mkNode [mkAd (Some 2) (Some [1])] true [] []) [(2, [1])];
+     mkW (mkNode [mkAd (Some 3) (Some [1])] true [] []) [(3, [1])]]
+    [(1, [(0, 0); (2, 1); (3, 0)]%nat); (2, [(0, 1); (1, 0); (4, 0)]%nat); (3, [(1, 1); (2, 0); (5, 0)]%nat)]
+    [] [].
+
+Definition ring3_send : world := submit ring3 3 (ARS 3 [1]) [16; 99; 7].
+
+Lemma ring3_lasso :
+  let c9 := erun (lans ring3) 9 (nodes ring3_send, queue ring3_send) in
+  erun (lans ring3) 3 c9 = c9 /\
+  forallb (fun b => negb (Nat.eqb (length (snd (erun (lans ring3) b c9))) 0)) (seq 0 3) = true /\
+  forallb (fun b => negb (Nat.eqb (length (snd (erun (lans ring3) b (nodes ring3_send, queue ring3_send)))) 0)) (seq 0 9) = true.
+Proof. vm_compute. repeat split; reflexivity. Qed.
+
+Lemma ring3_never_quiet : forall k, queue (run k ring3_send) <> [].
+Proof.
+  intro k. destruct (run_core k ring3_send) as [Hc _].
+  assert (Hq : queue (run k ring3_send) = snd (erun (lans ring3_send) k (nodes ring3_send, queue ring3_send)))
+    by (rewrite <- Hc; reflexivity).
+  rewrite Hq. change (lans ring3_send) with (lans ring3).
+  destruct ring3_lasso as (Hp & Hb & Ha).
+  destruct (Nat.lt_ge_cases k 9) as [Hk|Hk].
+  - pose proof (forall_lt_forallb _ _ Ha k Hk) as H. cbn beta in H.
+    intro E. rewrite E in H. discriminate.
+  - replace k with (9 + (k - 9))%nat by lia. rewrite erun_add.
+    apply (lasso_never_quiet (lans ring3) 3); [lia|exact Hp|].
+    intros b Hb'. pose proof (forall_lt_forallb _ _ Hb b Hb') as H. cbn beta in H.
+    intro E. rewrite E in H. discriminate.
+Qed.
+
+(* the payload itself is delivered exactly once, to the addressee, during the first steps *)
+Lemma ring3_payload_delivered :
+  filter (fun o => match o with OUp _ _ _ _ => true | _ => false end) (trace (run 12 ring3_send))
+  = [OUp 5 (ARS 1 [1]) (ALS [1]) [16; 99; 7]].
+Proof. vm_compute. reflexivity. Qed.
